@@ -102,6 +102,9 @@ def int_or_const_len(prog, e):
     if c.kind == 'const' and c.info.get('int') is not None:
         return c.info['int']
     if c.kind == 'call' and c.op.rsplit('::', 1)[-1] == 'len' and len(c.args) == 1:
+        lit = c.args[0].strip()
+        if lit.kind == 'agg' and lit.info.get('ak') == 'array':
+            return len(lit.args)        # the length of an array literal
         for n in c.args[0].walk():
             if n.kind == 'const':
                 if n.info.get('ref_bytes') is not None:
